@@ -104,7 +104,7 @@ def run(ck):
         okb = is_call(start, ("cbegin", "begin", "constBegin"))
         cont = skip_copies(start.get("obj")) if okb else None
         cond = skip_copies(loop.get("cond"))
-        oke = isinstance(cond, dict) and cond.get("op") == "!=" and any(is_call(a, ("cend", "end", "constEnd")) for a in cond.get("args", []))
+        oke = isinstance(cond, dict) and cond.get("op") == "!=" and any(is_call(deref_local(fn, a), ("cend", "end", "constEnd")) for a in (cond.get("args") or [cond.get("lhs"), cond.get("rhs")]) if isinstance(a, dict))
         inc = skip_copies(loop.get("inc"))
         oki = isinstance(inc, dict) and inc.get("op") == "++"
         ck.ob("C13-O1", sitestr(fn, loop), True if (okb and oke and oki) else None, "the loop runs an iterator from begin to end with ++" if (okb and oke and oki) else "iterator loop shape not recognised", key="JsonFormatter::format|loop-shape")
